@@ -2,7 +2,7 @@ package main
 
 // C01 — CBE encode/decode preserves every rules-valid event stream.
 //
-// Search oracle on the implementation: a generated rules-valid stream is played through
+// Search oracle on the implementation (streams with custom text: the encoder must refuse them): a generated rules-valid stream is played through
 // ce.NewRules -> ce.NewCBEEncoder, the document is decoded by ce.NewCBEDecoder -> ce.NewRules ->
 // Recorder; both stages must succeed and the denotation (den.go, the Go twin of Model/Denote.v)
 // of the decoded stream must equal the denotation of the input without its comments.
@@ -50,9 +50,26 @@ func c01Pipeline(es []Ev) (doc []byte, out []Ev, stage string, at int, msg strin
 	return buf.Bytes(), rec.Evs, "", -1, ""
 }
 
-// c01Oracle: does the round trip preserve the data of es?
+func hasCustomText(es []Ev) bool {
+	for _, e := range es {
+		if e.K == "ct" || (e.K == "cbeg" && e.A == events.ArrayTypeCustomText) {
+			return true
+		}
+	}
+	return false
+}
+
+// c01Oracle: does the round trip preserve the data of es? Custom text is outside the property's
+// quantifier (CBE carries custom binary only): for a stream containing it the required behaviour is
+// that the encoder reports an error instead of writing something else.
 func c01Oracle(es []Ev) (ok bool, expect, got string) {
 	_, out, stage, at, msg := c01Pipeline(es)
+	if hasCustomText(es) {
+		if stage == "encode" && (es[at].K == "ct" || es[at].K == "cbeg") {
+			return true, "the encoder refuses custom text", "refused at event " + es[at].String()
+		}
+		return false, "the encoder refuses custom text", fmt.Sprintf("stage=%q: custom text was not refused (%s)", stage, msg)
+	}
 	want := denString(denFilter(denGo(es), true, false))
 	switch stage {
 	case "encode":
@@ -77,10 +94,8 @@ func inexactBigFloat(e Ev) bool {
 func c01Construct(es []Ev) string {
 	for _, e := range es {
 		switch {
-		case e.K == "ct":
-			return "custom-text"
-		case e.K == "cbeg" && e.A == events.ArrayTypeCustomText:
-			return "chunked-custom-text"
+		case e.K == "ct" || (e.K == "cbeg" && e.A == events.ArrayTypeCustomText):
+			return "custom-text-not-refused"
 		case inexactBigFloat(e):
 			return "bigfloat-not-float64"
 		case e.K == "bdf" && e.BDF != nil && e.BDF.Form == apd.Finite && e.BDF.Coeff.Sign() != 0 && e.BDF.Exponent == math.MinInt32:
@@ -302,6 +317,7 @@ func c01Directed() map[string][]Ev {
 			Ev{K: "bi", Big: new(big.Int).Neg(bigPow2(64))}, Ev{K: "media", S: "a/b", Data: []byte{}}, Ev{K: "cb", N: 1<<32 - 1, Data: []byte{1}}),
 		"split-utf8": list(Ev{K: "ab", A: events.ArrayTypeString}, Ev{K: "ac", N: 3, B: false}, Ev{K: "ad", Data: []byte{0xe2}},
 			Ev{K: "ad", Data: []byte{0x82}}, Ev{K: "ad", Data: []byte{0xac}}),
+		// pinned: both custom-text forms must be refused by the encoder
 		"custom-text":          list(Ev{K: "ct", N: 3, Data: []byte("ab")}),
 		"chunked-custom-text":  list(Ev{K: "cbeg", A: events.ArrayTypeCustomText, N: 3}, Ev{K: "ac", N: 2, B: false}, Ev{K: "ad", Data: []byte("ab")}),
 		"bigfloat-not-float64": list(Ev{K: "bf", BF: new(big.Float).SetPrec(100).SetInt(new(big.Int).Add(bigPow2(80), big.NewInt(1)))}),
